@@ -294,7 +294,7 @@ def install_core_monitors():
             if c is not None:
                 c.iters += 1
                 c.iters_since_eval += 1
-                if c.iters_since_eval > LIVELOCK_LIMIT:
+                if c.iters_since_eval > c.extra.get("livelock_limit", LIVELOCK_LIMIT):
                     raise Livelock()
                 if c.iter_hook is not None:
                     c.iter_hook(self)
